@@ -7,17 +7,8 @@ LEVEL = "proof"
 def run(ctx):
     quick = ctx.tier == "quick"
     ctx.build_go()
-    ctx.extract(["tables", "parserdrv"])
-    try:
-        ctx.prove("Emerge.Props.C18")
-        if not quick:
-            ctx.leanchecker("Emerge.Props.C18")
-    except Broken as b:
-        ctx.add_broken(b.what, b.detail)
-        ok, out = ctx.lake(["model"])
-        if not ok:
-            ctx.add_broken("model driver no longer builds", out[-2000:])
-            return ctx.finish(LEVEL, {"evaluations": 0, "distinct_nontrivial": 0, "samples": []}, [])
+    if not ctx.prepare(["tables", "parserdrv"], "Emerge.Props.C18", quick):
+        return ctx.finish(LEVEL, {"evaluations": 0, "distinct_nontrivial": 0, "samples": []}, [])
     table_sweep(ctx)
     base = []
     for _ in range(400 if quick else 4000):
